@@ -84,13 +84,20 @@ PROPS = {
     "C14": {
         "module": "MantraDex.Properties.C14", "ns": "MantraDex.C14",
         "theorems": ["single_refused_on_empty_or_larger_pool", "single_cannot_lock_for_other", "multi_cannot_lock_for_other",
-                     "lock_into_position_requires_ownership", "first_leg_shape", "reply_shape", "buffer_only_set_by_first_leg"],
+                     "lock_into_position_requires_ownership", "first_leg_shape", "reply_shape", "buffer_only_set_by_first_leg",
+                     "MantraDex.C14Eq.single_asset_equals_two_step_partial"],
+        "extra_modules": ["MantraDex.Properties.C14Eq"],
         "streams": {"pm_hist": (80, 4000), "twin": (60, 3000), "faults": (30, 1500)},
         "what": "single-asset deposits are refused on empty / larger pools; neither path can lock LP for someone other than the sender and an existing "
                 "position must belong to the receiver; first leg = simulate, buffer (expected balances, options), swap exactly floor(a/2) via a "
                 "reply-on-success self-call; reply = both balances must match, buffer cleared, deposit of half + simulated proceeds with the recorded "
-                "options as a plain self-call; no other handler sets the buffer",
-        "assumptions": ["equality with the manual swap-then-deposit run is validated by the twin-deployment stream (mon_twin_c14), not proved; all-or-nothing is C20"],
+                "options as a plain self-call; no other handler sets the buffer. MAIN CLAUSE THROUGH THE RUNTIME (C14Eq): an accepted unlocked "
+                "single-asset deposit of c by u ends in the same world as u swapping floor(c/2) and then depositing that half plus the proceeds - same "
+                "pool-manager state (reserves, fees, counters), same farm manager, same supplies, same balances of every account and denom - except "
+                "that the odd unit c mod 2 sits in the pool manager's balance instead of the depositor's (single_asset_equals_two_step_partial)",
+        "assumptions": ["C14Eq is proved for unlocked deposits from well-formed worlds (empty buffer between transactions, valid sender address, supply covering the "
+                        "deposit: three proved-necessary hypotheses, counterexamples in the file); the locked variants and the implementation-level equality are "
+                        "validated by the twin-deployment stream (mon_twin_c14); all-or-nothing is C20"],
     },
 
     "C15": {
